@@ -18,7 +18,7 @@ pub fn map_op(op: &Op, f: &dyn Fn(&P) -> P, slot_off: u8) -> Op {
         Op::ReadFile(p, b) => Op::ReadFile(f(p), *b),
         Op::ReadToString(p) => Op::ReadToString(f(p)),
         Op::WalkDir(p) => Op::WalkDir(f(p)),
-        Op::WalkAfter { p, muts } => Op::WalkAfter { p: f(p), muts: muts.iter().map(|m| map_op(m, f, slot_off)).collect() },
+        Op::WalkAfter { p, muts, after } => Op::WalkAfter { p: f(p), muts: muts.iter().map(|m| map_op(m, f, slot_off)).collect(), after: *after },
         Op::CreateDir(p) => Op::CreateDir(f(p)),
         Op::CreateDirAll(p) => Op::CreateDirAll(f(p)),
         Op::RemoveFile(p) => Op::RemoveFile(f(p)),
